@@ -276,6 +276,8 @@ pub struct StoreShared {
     pub load_calls: u64,
     pub fail_store: bool,
     pub fail_load: bool,
+    /// when set, every store/load goes through the real `FileRetainStore` (codec + file) at this path
+    pub via_file: Option<std::path::PathBuf>,
 }
 
 #[derive(Clone)]
@@ -294,6 +296,9 @@ impl RetainStore for SimRetainStore {
         if s.fail_load {
             return Err(RuntimeError::RetainStore("sim load fault".into()));
         }
+        if let Some(p) = &s.via_file {
+            return trust_runtime::retain::FileRetainStore::new(p.clone()).load();
+        }
         Ok(s.durable.clone().unwrap_or_default())
     }
     fn store(&self, snapshot: &RetainSnapshot) -> Result<(), RuntimeError> {
@@ -301,6 +306,9 @@ impl RetainStore for SimRetainStore {
         s.store_calls += 1;
         if s.fail_store {
             return Err(RuntimeError::RetainStore("sim store fault".into()));
+        }
+        if let Some(p) = &s.via_file {
+            trust_runtime::retain::FileRetainStore::new(p.clone()).store(snapshot)?;
         }
         s.durable = Some(snapshot.clone());
         Ok(())
